@@ -22,7 +22,7 @@ TSenderUpdate == Ev("supdate") /\ SenderUpdate /\ sgen' = e.sgen
 TPhaseOut == Ev("phaseout") /\ PhaseOut
 TRx == /\ Ev("rx")
        /\ e.nacc <= e.n /\ e.nident <= e.nacc
-       /\ Monitor(Pk, e.nacc > 0, e.nident = e.nacc, e.extra, e.reg, (IsLong(e.sp) \/ Kp >= 0) /\ CodeAccepts(Pk, KpM))
+       /\ Monitor(Pk, e.nacc > 0, e.nident = e.nacc, e.extra, e.reg, (IsLong(e.sp) \/ Kp >= 0) /\ CodeAccepts(Pk, KpM), e.nconn)
        /\ IF e.n = 1 /\ Kp >= 0 THEN Shadow(Pk, Kp) ELSE UNCHANGED <<cur, slot>>
 
 TraceInit == l = 1 /\ Init
@@ -36,6 +36,7 @@ SoftGenuineAccepted == Soft("GenuineRejected", res.model => GenuineAccepted)
 SoftStaleReadKey == Soft("GenuineRejected_StaleReadKey", ~res.model => GenuineAccepted)
 SoftBitIdentical == Soft("NotBitIdentical", BitIdentical)
 SoftNothingElse == Soft("ExtraPacketDelivered", NothingElseDelivered)
+SoftDiscardedSilently == Soft("ConnErrorOnUnauthenticated", DiscardedSilently)
 \* diagnostic only (not a property of C06): the implementation's cur_phase follows the code-shaped machine
 DiagShadow == Soft("DiagShadow", (l > 1 /\ Rec[l - 1].ev = "rx" /\ Rec[l - 1].n = 1) => Rec[l - 1].cur_phase = Phase(cur))
 
